@@ -2,7 +2,7 @@ import Hls.Proofs.AttrFold
 import Hls.Proofs.Attr
 import Hls.Proofs.ParserInv
 import Hls.Props.C02
-import Hls.Props.C03
+import Hls.Proofs.KeyLine
 /-!
 # C01 — media playlist text is parsed faithfully
 
@@ -28,6 +28,10 @@ def isSegTag : Line → Bool
   | .inf _ | .byteRange _ | .discontinuity | .key _ | .map _ | .programDateTime _ | .dateRange _ => true
   | _ => false
 
+def isDisc : Line → Bool
+  | .discontinuity => true
+  | _ => false
+
 /-- effect of a segment tag on the segment under construction (given the keys in effect) -/
 def segUpd (keys : List ExtXKey) (sb : MediaSegmentBuilder) : Line → MediaSegmentBuilder
   | .inf t => { sb with duration := some t }
@@ -40,25 +44,28 @@ def segUpd (keys : List ExtXKey) (sb : MediaSegmentBuilder) : Line → MediaSegm
 
 theorem segTag_step (st : PState) (l : Line) (h : isSegTag l = true) :
     ∃ st', mediaStep st l = .ok st' ∧ st'.segment = segUpd st.available_keys st.segment l ∧
-      st'.available_keys = C03.keyOfLine st.available_keys l ∧ st'.segments = st.segments ∧
-      st'.builder = st.builder ∧ st'.unknown = st.unknown ∧ st'.has_partial_segment = true := by
-  cases l <;> simp [isSegTag] at h <;> exact ⟨_, rfl, rfl, rfl, rfl, rfl, rfl, rfl⟩
+      st'.available_keys = keyOfLine st.available_keys l ∧ st'.segments = st.segments ∧
+      st'.builder = st.builder ∧ st'.unknown = st.unknown ∧ st'.has_partial_segment = true ∧
+      st'.has_discontinuity_tag = (st.has_discontinuity_tag || isDisc l) := by
+  cases l <;> simp [isSegTag] at h <;> exact ⟨_, rfl, rfl, rfl, rfl, rfl, rfl, rfl, by simp [isDisc]⟩
 
 /-- the pair (segment under construction, keys in effect) after a run of segment tags -/
 def groupFold (acc : MediaSegmentBuilder × List ExtXKey) (tags : List Line) : MediaSegmentBuilder × List ExtXKey :=
-  tags.foldl (fun a l => (segUpd a.2 a.1 l, C03.keyOfLine a.2 l)) acc
+  tags.foldl (fun a l => (segUpd a.2 a.1 l, keyOfLine a.2 l)) acc
 
 theorem group_fold (tags : List Line) (st : PState) (h : ∀ l ∈ tags, isSegTag l = true) :
     ∃ st', foldRes mediaStep st tags = .ok st' ∧
       (st'.segment, st'.available_keys) = groupFold (st.segment, st.available_keys) tags ∧
-      st'.segments = st.segments ∧ st'.builder = st.builder ∧ st'.unknown = st.unknown := by
+      st'.segments = st.segments ∧ st'.builder = st.builder ∧ st'.unknown = st.unknown ∧
+      st'.has_discontinuity_tag = (st.has_discontinuity_tag || tags.any isDisc) := by
   induction tags generalizing st with
-  | nil => exact ⟨st, rfl, rfl, rfl, rfl, rfl⟩
+  | nil => exact ⟨st, rfl, rfl, rfl, rfl, rfl, by simp⟩
   | cons l rest ih =>
-    obtain ⟨t, h1, h2, h3, h4, h5, h6, _⟩ := segTag_step st l (h l (by simp))
-    obtain ⟨st', g1, g2, g3, g4, g5⟩ := ih t (fun l' hl' => h l' (by simp [hl']))
-    refine ⟨st', by simp [foldRes, h1, g1], ?_, by rw [g3, h4], by rw [g4, h5], by rw [g5, h6]⟩
-    rw [g2, h2, h3]; rfl
+    obtain ⟨t, h1, h2, h3, h4, h5, h6, _, h7⟩ := segTag_step st l (h l (by simp))
+    obtain ⟨st', g1, g2, g3, g4, g5, g6⟩ := ih t (fun l' hl' => h l' (by simp [hl']))
+    refine ⟨st', by simp [foldRes, h1, g1], ?_, by rw [g3, h4], by rw [g4, h5], by rw [g5, h6], ?_⟩
+    · rw [g2, h2, h3]; rfl
+    · rw [g6, h7]; simp [Bool.or_assoc]
 
 /-- last value of a kind among the tags -/
 def lastOf {α} (f : Line → Option α) (tags : List Line) : Option α :=
@@ -78,10 +85,6 @@ def pdtOf : Line → Option ExtXProgramDateTime
 def dateRangeOf : Line → Option ExtXDateRange
   | .dateRange t => some t
   | _ => none
-def isDisc : Line → Bool
-  | .discontinuity => true
-  | _ => false
-
 /-- generic: a field that only one kind of tag writes holds the last such tag -/
 theorem groupFold_field {α} (get : MediaSegmentBuilder → Option α) (f : Line → Option α)
     (hset : ∀ keys sb l x, f l = some x → get (segUpd keys sb l) = some x)
@@ -99,7 +102,7 @@ theorem groupFold_field {α} (get : MediaSegmentBuilder → Option α) (f : Line
       exact ih acc
 
 theorem group_keys (tags : List Line) (acc : MediaSegmentBuilder × List ExtXKey) :
-    (groupFold acc tags).2 = tags.foldl C03.keyOfLine acc.2 := by
+    (groupFold acc tags).2 = tags.foldl keyOfLine acc.2 := by
   induction tags generalizing acc with
   | nil => rfl
   | cons l rest ih => simp only [groupFold, List.foldl_cons] at ih ⊢; exact ih _
@@ -119,7 +122,7 @@ theorem group_explicit (tags : List Line) (acc : MediaSegmentBuilder × List Ext
   | nil => exact ⟨rfl, rfl⟩
   | cons l rest ih =>
     simp only [groupFold, List.foldl_cons] at ih ⊢
-    obtain ⟨a, b⟩ := ih (segUpd acc.2 acc.1 l, C03.keyOfLine acc.2 l)
+    obtain ⟨a, b⟩ := ih (segUpd acc.2 acc.1 l, keyOfLine acc.2 l)
     rw [a, b]
     cases l <;> exact ⟨rfl, rfl⟩
 
@@ -129,17 +132,19 @@ theorem segment_faithful (st : PState) (tags : List Line) (u : Str) (hfresh : st
     (htags : ∀ l ∈ tags, isSegTag l = true) (t : ExtInf) (hinf : lastOf infOf tags = some t) :
     ∃ st' seg, foldRes mediaStep st (tags ++ [.uri u]) = .ok st' ∧ st'.segments = st.segments ++ [seg] ∧
       st'.segment = {} ∧ st'.has_partial_segment = false ∧
-      st'.available_keys = tags.foldl C03.keyOfLine st.available_keys ∧
+      st'.available_keys = tags.foldl keyOfLine st.available_keys ∧
       seg.uri = u ∧ seg.duration = t ∧
       seg.byte_range = lastOf rangeOf tags ∧
       seg.program_date_time = lastOf pdtOf tags ∧
       seg.date_range = lastOf dateRangeOf tags ∧
       seg.has_discontinuity = tags.any isDisc ∧
-      seg.keys = tags.foldl C03.keyOfLine st.available_keys ∧
-      seg.explicit_number = false := by
-  obtain ⟨s1, h1, h2, h3, h4, h5⟩ := group_fold tags st htags
+      seg.keys = tags.foldl keyOfLine st.available_keys ∧
+      seg.explicit_number = false ∧ seg.number = 0 ∧
+      seg.map = (groupFold ({}, st.available_keys) tags).1.map ∧
+      st'.builder = st.builder ∧ st'.unknown = st.unknown ∧ st'.has_discontinuity_tag = (st.has_discontinuity_tag || tags.any isDisc) := by
+  obtain ⟨s1, h1, h2, h3, h4, h5, h6⟩ := group_fold tags st htags
   have hseg : s1.segment = (groupFold (st.segment, st.available_keys) tags).1 := by rw [← h2]
-  have hkeys : s1.available_keys = tags.foldl C03.keyOfLine st.available_keys := by
+  have hkeys : s1.available_keys = tags.foldl keyOfLine st.available_keys := by
     have : s1.available_keys = (groupFold (st.segment, st.available_keys) tags).2 := by rw [← h2]
     rw [this, group_keys]
   have hdur : s1.segment.duration = some t := by
@@ -166,14 +171,18 @@ theorem segment_faithful (st : PState) (tags : List Line) (u : Str) (hfresh : st
     rw [hseg, group_disc, hfresh]; simp
   have hexp : s1.segment.explicit_number = none := by
     rw [hseg, (group_explicit tags _).1, hfresh]
+  have hnum : s1.segment.number = none := by
+    rw [hseg, (group_explicit tags _).2, hfresh]
   rw [foldRes_append, h1]
   simp only [foldRes, mediaStep, MediaSegmentBuilder.build, hdur]
   let seg0 : MediaSegment := ⟨s1.segment.number.getD 0, s1.segment.explicit_number.getD false, s1.available_keys, s1.segment.map,
     s1.segment.byte_range, s1.segment.date_range, s1.segment.has_discontinuity.getD false, s1.segment.program_date_time, t, u⟩
   refine ⟨{ s1 with segments := s1.segments ++ [seg0], segment := {}, has_partial_segment := false }, seg0,
-    rfl, ?_, rfl, rfl, hkeys, rfl, rfl, hbr, hpdt, hdr, hdisc, hkeys, ?_⟩
+    rfl, ?_, rfl, rfl, hkeys, rfl, rfl, hbr, hpdt, hdr, hdisc, hkeys, ?_, ?_, ?_, h4, h5, h6⟩
   · simp [h3]
   · simp [seg0, hexp]
+  · simp [seg0, hnum]
+  · simp only [seg0]; rw [hseg, hfresh]
 
 /-! ## one segment per URI line, in order; `build` keeps what the tags said -/
 
